@@ -30,6 +30,10 @@ theorem kth_outcome_is_fresh (h : List (Ctx V × Window × Expr V)) (k : Nat) (q
 function of the engine (regenerated on every run) -/
 theorem no_global_state_written : Gen.packageVarWrites = [] := by decide
 
+/-- ... nor a field of the engine value (per-query options such as the lookback delta are computed,
+not stored), nor is the address of one handed out (regenerated) -/
+theorem no_engine_state_written : Gen.engineFieldWrites = [] ∧ Gen.engineFieldAddrs = [] := by decide
+
 /-! ### returned results stay untouched -/
 
 open PoolM in
